@@ -1768,8 +1768,8 @@ class Interp:
         def array(x, dtype=None):
             if isinstance(x, SArr):
                 return x
-            if isinstance(x, (int, float, Sym)) and not isinstance(x, bool) or isinstance(x, str):
-                z = SArr([])  # 0-d array
+            if isinstance(x, (int, float, Sym)) and not isinstance(x, bool) or isinstance(x, str) or (isinstance(x, Obj) and x.kind == "instance" and I.getattr(x, "__len__", default=None) is None and I.getattr(x, "__iter__", default=None) is None):
+                z = SArr([])  # 0-d array (of the number / string / arbitrary object)
                 z.data[()] = x
                 return z
             xs = I.iterate(x)
